@@ -41,6 +41,17 @@ func randCase(c *core.Ctx, label, s string) string {
 	return string(b)
 }
 
+func canonNames(l *gen.LSXG) map[string]bool {
+	m := map[string]bool{}
+	for _, h := range l.RespHeaders {
+		m[strings.ToLower(h.Name)] = true
+	}
+	for _, n := range l.EmptyValued {
+		m[strings.ToLower(n)] = true
+	}
+	return m
+}
+
 func TestPolicy(t *testing.T) {
 	rapid.Check(t, func(t *rapid.T) {
 		core.Run(t, "sxg/policy", func(c *core.Ctx) {
@@ -150,7 +161,14 @@ func TestPolicy(t *testing.T) {
 					if c.Bool("resp.recase") {
 						name = randCase(c, "resp.case", name)
 					}
-					l.RespHeaders = append(l.RespHeaders, gen.HV{Name: name, Value: "v"})
+					if _, dup := canonNames(l)[strings.ToLower(name)]; c.Chance("resp.noValue", 1, 5) && !dup {
+						// present in the caller's map without any value
+						l.EmptyValued = append(l.EmptyValued, name)
+						p.RespHeaderNames = append(p.RespHeaderNames, name)
+						c.Probe("header present with an empty value list")
+					} else {
+						l.RespHeaders = append(l.RespHeaders, gen.HV{Name: name, Value: "v"})
+					}
 				case "content-type":
 					var hs []gen.HV
 					for _, h := range l.RespHeaders {
@@ -161,7 +179,10 @@ func TestPolicy(t *testing.T) {
 					l.RespHeaders = hs
 					p.HasContentType = false
 				case "cache-control":
-					dirs := []string{"no-store", "private", "max-age=60", "s-maxage=10", "public", "no-cache", "must-revalidate", "No-Store", "PRIVATE", "Max-Age=5", "no-storex", "xprivate", "immutable"}
+					dirs := []string{"no-store", "private", "max-age=60", "s-maxage=10", "public", "no-cache", "must-revalidate", "No-Store", "PRIVATE", "Max-Age=5", "no-storex", "xprivate", "immutable",
+						// extension directives with quoted-string arguments (no comma inside: the repository's
+						// parser documents that as unsupported), including quoted pairs
+						`ext="a\"b"`, `ext="q"`, `community="U\\C\"I"`, `no-cache="set-cookie"`, `x="no-store"`, `private="x-hdr"`, `max-age="60"`}
 					n := c.Int("cc.n", 1, 3)
 					var parts []string
 					for j := 0; j < n; j++ {
